@@ -13,6 +13,7 @@ Oracle : per call - a fully constructed Template whose version lies between the 
 """
 import itertools
 import os
+import threading
 import time as _time
 import unittest.mock as mock
 
@@ -89,12 +90,30 @@ class World:
         self.files = files
         for u, txt in files.items():
             self.write(u, txt, 1, advance=False)
-        self.lookup = TemplateLookup(directories=[self.root], collection_size=collection_size, filesystem_checks=True)
         self.constructions = []
         self.sref = [None]
+        # every lock the lookup creates through threading.Lock(), now or later, is a cooperative lock of the scheduler
+        # (the harness does not plant its own lock: how and when the lookup creates its lock is part of what is checked)
+        with self.lock_patch():
+            self.lookup = TemplateLookup(directories=[self.root], collection_size=collection_size, filesystem_checks=True)
 
     def path(self, u):
         return os.path.join(self.root, u.lstrip("/"))
+
+    def lock_patch(self):
+        import mako.lookup
+
+        w = self
+
+        class ThreadingProxy:
+            @staticmethod
+            def Lock():
+                return S.CoLock(w.sref)
+
+            def __getattr__(self, k):
+                return getattr(threading, k)
+
+        return mock.patch.object(mako.lookup, "threading", ThreadingProxy())
 
     def write(self, u, body, version, advance=True):
         if advance:
@@ -131,6 +150,7 @@ class World:
             mock.patch.object(mako.util, "timeit", TimeitProxy),
             mock.patch.object(mako.lookup, "Template", counting),
             mock.patch.object(mako.lookup, "os", OsProxy(self.sref)),
+            self.lock_patch(),
         ]
 
 
@@ -190,7 +210,6 @@ def execute(case, chooser, d, fine):
     for p in patches:
         p.start()
     try:
-        w.lookup._mutex = S.CoLock(sch)
         for u in sc["preload"]:
             w.lookup.get_template(u)
         w.constructions.clear()
@@ -511,6 +530,28 @@ def shard_lookup_sweep(task):
     return ev, list(fails.values())
 
 
+def shard_lookup_sweep2(task):
+    """every schedule of a two-thread lookup scenario with two preemptions at line granularity (thread 0 after k1 decisions,
+    thread 1 after k2): k1 = task's share, k2 = all"""
+    kind, variant, k1s, stride2 = task
+    core.setup_repo()
+    ev = core.Evidence()
+    fails = {}
+    case = {"part": "lookup", "kind": kind, "threads": 2, "variant": variant}
+    with core.TempDir() as d:
+        for k1 in k1s:
+            k2 = 0
+            while k2 < 1200:
+                sch, detail, key = execute(case, S.TwoPreemptionChooser(k1, k2), d, fine=True)
+                if detail:
+                    fails.setdefault(key, make_failure(case, sch, detail, key, True))
+                ev.case(key=[kind, 2, variant, "sweep2", k1, k2], nontrivial=sch.preemptions >= 2, labels=("fine-sweep2:" + kind,))
+                if k2 > len(sch.choices) + 2:
+                    break
+                k2 += stride2
+    return ev, list(fails.values())
+
+
 def shard_first_use_sweep(task):
     """every schedule with exactly ONE preemption of thread `first` (after its k-th scheduling decision) for the first-use scenario"""
     first, lo, hi, stride = task
@@ -530,7 +571,7 @@ def shard_first_use_sweep(task):
 def run(ctx):
     tasks = []
     step = 200
-    ctx.pmap(shard_first_use_sweep, [(first, lo, lo + step, 1) for first in (0, 1) for lo in range(0, 2400, step)])
+    ctx.pmap(shard_first_use_sweep, [(first, lo, lo + step, ctx.pick(2, 1)) for first in (0, 1) for lo in range(0, 2400, step)])
     for kind in KINDS:
         for threads in (2, 3):
             for variant in range(ctx.pick(2, 6)):
@@ -539,6 +580,9 @@ def run(ctx):
     ctx.pmap(shard_lookup_sweep, [(kind, threads, variant, first) for kind in ("modify-race", "failing-compile", "bounded-vanish")
                                   for threads in (2, 3) for variant in range(6 if kind == "modify-race" else 2)
                                   for first in range(threads)])
+    s2 = ctx.pick(4, 1)
+    ctx.pmap(shard_lookup_sweep2, [("first-load-same", 0, list(range(i, 140, 16)), 1) for i in range(16)]
+             + [("modify-race", v, list(range(i, 260, 16 * s2)), s2 + 1) for v in (0, 3) for i in range(16)])
     ctx.pmap(shard_random, [(ctx.shard_seed(i), ctx.pick(60, 1500), ctx.pick(25, 500)) for i in range(16)])
 
 
